@@ -455,7 +455,6 @@ class Model(Immutable):
 
     @cache_method
     def __hash__(self):
-        dataset_hash = hash_df_runtime(self._dataset) if self._dataset is not None else None
         return hash(
             (
                 self._parameters,
@@ -466,7 +465,6 @@ class Model(Immutable):
                 self._execution_steps,
                 self._initial_individual_estimates,
                 self._datainfo,
-                dataset_hash,
                 self._value_type,
             )
         )
